@@ -219,6 +219,30 @@ Theorem C10_stub_set_opens : forall (H : manifest -> N) (Hp : cont -> N) T m nex
 Proof. exact stub_set_opens. Qed.
 Print Assumptions C10_stub_set_opens.
 
+(** Refused operations (second commit without a new patch, commit with an unknown keyword or
+    through a read-only handle, create_patch while a container is writable, discard with nothing
+    pending) leave the manifest-carrying record unchanged — containers, user blocks, the loaded
+    manifest, the manifests on disk — so the manifest invariant survives them. *)
+Theorem C10_refused_ops_frame : forall (H : manifest -> N) (Hp : cont -> N) st o,
+  (mf_step H Hp st o).2 = false -> (mf_step H Hp st o).1 = st.
+Proof. exact refused_ops_frame. Qed.
+Print Assumptions C10_refused_ops_frame.
+
+Theorem C10_refusals : forall (H : manifest -> N) (Hp : cont -> N) st,
+  (mf_step H Hp st MCommitKw).2 = false /\ (mf_step H Hp st MCommitRo).2 = false /\
+  (committed st = true -> forall g, (mf_step H Hp st (MCommit g)).2 = false) /\
+  (committed st = true -> (mf_step H Hp st MDiscard).2 = false) /\
+  (committed st = false -> (mf_step H Hp st MCreatePatch).2 = false).
+Proof. exact refusals. Qed.
+Print Assumptions C10_refusals.
+
+Theorem C10_linked_after_refused : forall (H : manifest -> N) (Hp : cont -> N) st os,
+  mf_linked H st -> Forall (fun o => (mf_step H Hp st o).2 = false) os ->
+  mf_linked H (foldl (fun s o => (mf_step H Hp s o).1) st os) /\
+  foldl (fun s o => (mf_step H Hp s o).1) st os = st.
+Proof. exact linked_after_refused. Qed.
+Print Assumptions C10_linked_after_refused.
+
 (** Non-vacuity: a two-container record, its stub, an update through the stub. *)
 Local Open Scope string_scope.
 Definition ex_hist : list op :=
